@@ -20,7 +20,7 @@ RULE = (
     "get/post/recover programs with printable placements, 1-3 URIs, verbs GET/POST/PUT/custom, static headers and "
     "parameters) and a history of <= 10 steps: checkin (library HttpBeaconClient.get_task, optionally with a queued "
     "task), callback (library send_callback), multi_callback (reference beacon, 2-4 concatenated packets), "
-    "unrelated_request. The peer is a recording loopback HTTP server driven by the reference codec. After every step "
+    "unrelated_request, duplicate (a byte-identical retransmission of an earlier message). The peer is a recording loopback HTTP server driven by the reference codec. After every step "
     "a fresh C2Http per key variant (RSA private key only / aes_rand / AES+HMAC keys) is fed all raw messages so far, "
     "and a persistent C2Http per variant is fed only the new messages; both "
     "must yield exactly the model's packets in order; get_task() must return the queued task; unrelated requests "
@@ -299,6 +299,10 @@ def apply_op(sess, op):
         sess.multi_callback([tuple(x) for x in op[1]], op[2])
     elif kind == "unrelated":
         sess.unrelated(op[1])
+    elif kind == "duplicate":
+        # a retransmitted / duplicated message (byte-identical) decodes to the same packets again
+        if sess.messages:
+            sess.messages.append(sess.messages[op[1] % len(sess.messages)])
     sess.check_decoders()
 
 
@@ -367,6 +371,11 @@ def machine(stats, rec):
         @rule(items=st.lists(cb_st, min_size=2, max_size=4), masks=st.lists(st.binary(min_size=4, max_size=4), min_size=8, max_size=8))
         def multi_callback(self, items, masks):
             self.do(("multi", items, masks))
+
+        @precondition(lambda self: self.sess is not None and len(self.ops) < 10)
+        @rule(i=st.integers(0, 30))
+        def duplicate(self, i):
+            self.do(("duplicate", i))
 
         @precondition(lambda self: self.sess is not None)
         @rule(which=st.integers(0, 3))
